@@ -242,7 +242,7 @@ Section Loader.
   (* -------------------------------------------------------------------------------------- *)
   (* after the header has been stored *)
   Definition quiet_op (op : sysop) : Prop :=
-    match op with Msync _ | Fsync | Mmap _ | Munmap _ | Close => True | _ => False end.
+    match op with Msync _ | Fsync | SyncFail | Mmap _ | Munmap _ | Close => True | _ => False end.
 
   (* the page cache holds the final image F; stable storage agrees with it from offset h on, and its first
      page either still lacks the header byte or is final as well *)
@@ -444,6 +444,36 @@ Section Main.
   Lemma truncation : forall cfg F L v, load cfg (firstn L F) = Some v -> reads_agree F v /\ length (fst v) <= L.
   Proof. exact (load_truncated pm_ok body_size words_ok). Qed.
 End Main.
+
+(* ------------------------------------------------------------------------------------------ *)
+(* a writer that never stores the header -- in particular one stopped by a failed sync -- leaves nothing that loads *)
+Section NoHeader.
+  Variable pm_ok : list byte -> bool.
+  Variable body_size : loader_cfg -> list byte -> nat.
+  Variable words_ok : list byte -> list byte -> bool.
+  Notation load := (load pm_ok body_size words_ok).
+
+  Lemma never_loads : forall ops t1 t2 sel L cfg, Forall safe_op ops -> ops = t1 ++ t2 ->
+    load cfg (crash_image (run empty_file t1) sel L) = None.
+  Proof.
+    intros ops t1 t2 sel L cfg Hs E.
+    destruct (run_prefix_no_header ops empty_file Hs eq_refl empty_no_header t1 t2 E) as [Hn Hl].
+    apply crash_no_header; assumption.
+  Qed.
+
+  Lemma failed_sync_safe : forall wm iv c, sanity_size <= c_H c -> Forall safe_op (failed_sync_trace wm iv c).
+  Proof.
+    intros wm iv c HH. unfold failed_sync_trace.
+    pose proof (body_safe false wm iv c HH) as Hb. apply Forall_app in Hb. destruct Hb as [Hb _].
+    apply Forall_app. split; [exact Hb|]. destruct wm; repeat constructor.
+  Qed.
+
+  Lemma failed_sync_never_loads : forall wm iv c t1 t2 sel L cfg, wf_contents c ->
+    failed_sync_trace wm iv c = t1 ++ t2 -> load cfg (crash_image (run empty_file t1) sel L) = None.
+  Proof.
+    intros wm iv c t1 t2 sel L cfg (H1 & _) E. eapply never_loads; [apply failed_sync_safe; exact H1|exact E].
+  Qed.
+End NoHeader.
 
 (* ------------------------------------------------------------------------------------------ *)
 (* The same for ANY writer of this shape: an arbitrary sequence of operations that never put the reference
